@@ -36,7 +36,10 @@ def execute(rules, S, names, free=()):
         bn = nb.infer_valid_graph()
         assert all(bn.get_update_function(nm) is None for nm in free)
     g = ba.AsynchronousGraph(bn)
-    pn = network_to_petrinet(bn)
+    try:
+        pn = network_to_petrinet(bn)
+    except Exception as e:      # the real function raised on a valid network: part of the verdict, not a harness error
+        return {"S": S, "exc": f"network_to_petrinet raised {type(e).__name__}: {str(e)[:100]}"}
     n = len(names)
     states = list(itertools.product((0, 1), repeat=n))
     out = {"S": S}
@@ -57,7 +60,10 @@ def execute(rules, S, names, free=()):
     perc = percolate_space(g, dict(sd))
     out["perc"] = tuple((int(perc[nm]) if nm in perc else None) for nm in names)
     for rc in (True, False):
-        r = percolate_network(bn, dict(sd), g, remove_constants=rc)
+        try:
+            r = percolate_network(bn, dict(sd), g, remove_constants=rc)
+        except Exception as e:
+            return {"S": S, "exc": f"percolate_network raised {type(e).__name__}: {str(e)[:100]}"}
         gr = ba.AsynchronousGraph(r)
         rnames = list(r.variable_names())
         fns = {}
@@ -80,6 +86,8 @@ def execute(rules, S, names, free=()):
 
 def assertion(B, out):
     parts = []
+    if out.get("exc"):
+        return [("the real code raised: " + out["exc"], B.const(False))]
     n = B.n
     names = B.names
     en = out["_en"]
@@ -165,7 +173,7 @@ def run_task(task):
         for lbl, f in parts:
             if not (z3.is_true(f) or z3.is_false(f)):
                 ctx.obs(f)
-        return specs.conj(net, parts), {"S": S, "perc": out["perc"]}
+        return specs.conj(net, parts), {"S": S, "perc": out.get("perc")}
     cube = [net.bits[i] if v else z3.Not(net.bits[i]) for i, v in task.get("cube", [])]
     res = explore(net, harness, extra_vars=ts + fis, extra_constraints=cs, cube=cube, timebox=task["timebox"], seed=task.get("seed", 0), label=task["label"],
                   start_at=task.get("start_at"), max_classes=task.get("max_classes"))
